@@ -13,7 +13,7 @@
 From GV.Model Require Import Ast Spec.
 From GV.Model Require Import Lex ValueParse QueryParse OpParse ClauseParse.
 From GV.Proofs Require Import LexProps ValueParseProps ValueSpellProps ValueSpellExample.
-From GV.Proofs Require Import QueryParseProps QuerySpellProps QuerySpellExample ThisProps OpParseProps ClauseParseProps.
+From GV.Proofs Require Import QueryParseProps QuerySpellProps QuerySpellExample ThisProps OpParseProps ClauseParseProps ClauseSpellProps ClauseSpellExample.
 
 Theorem C14_keyword_tables_are_the_documented_ones :
   set_eqb kw_in_keyword ["in"; "IN"] = true /\ set_eqb kw_keys ["keys"; "KEYS"] = true /\
@@ -211,3 +211,32 @@ Print Assumptions C14_clause_parser_answers.
 Theorem C14_clause_parser_consumes : forall rv n s c rest, clause rv n s = POk c rest -> (String.length rest < String.length s)%nat.
 Proof. exact clause_consumes. Qed.
 Print Assumptions C14_clause_parser_consumes.
+
+(* every concrete spelling of an access clause - layout in front, a negation spelled not / NOT with any blanks or !, any spelling of
+   the query, layout before the operator, a symbol or a keyword operator in either case with its own negation, layout before the
+   right-hand side, any spelling of a value literal or a %variable query, layout before an optional message - parses to that clause *)
+Theorem C14_every_spelling_of_a_clause_parses_to_it : forall rv c o rest, cwf rv c o -> cfollow rv c rest ->
+  clause_top rv (crender rv c +++ rest) = POk (cdenote c o) (match cl_msg c with Some _ => rest | None => skip_ws_comments rest end).
+Proof. exact clause_spelling_parses. Qed.
+Print Assumptions C14_every_spelling_of_a_clause_parses_to_it.
+
+Theorem C14_spellings_of_one_clause_agree : forall rv c1 c2 o rest, cwf rv c1 o -> cwf rv c2 o -> cfollow rv c1 rest -> cfollow rv c2 rest ->
+  cdenote c1 o = cdenote c2 o -> (cl_msg c1 = None <-> cl_msg c2 = None) ->
+  clause_top rv (crender rv c1 +++ rest) = clause_top rv (crender rv c2 +++ rest).
+Proof. exact clause_spellings_agree. Qed.
+Print Assumptions C14_spellings_of_one_clause_agree.
+
+(* the premises are met: two different spellings of one negated `not in` clause with a literal and a message, a unary clause
+   under `some this`, a comparison against a %variable query *)
+Theorem C14_clause_spelling_instance :
+  clause_top rv0 (crender rv0 ex_c1 +++ nl) = POk (cdenote ex_c1 (OIn, true)) nl /\
+  cdenote ex_c1 (OIn, true) =
+    mkPC true (AccessQuery [QKey "%buckets"; QAllIndices None; QKey "Properties"; QKey "a b"; QIndex 0] true) (OIn, true) (Some (RLit (VInt 10))) (Some " must be ten ") /\
+  cdenote ex_c2 (OIn, true) = cdenote ex_c1 (OIn, true) /\ crender rv0 ex_c2 <> crender rv0 ex_c1 /\
+  clause_top rv0 (crender rv0 ex_c2 +++ nl) = clause_top rv0 (crender rv0 ex_c1 +++ nl) /\
+  clause_top rv0 (crender rv0 ex_unary +++ (nl +++ "}")) =
+    POk (mkPC false (AccessQuery [QThis; QKey "Tags"] false) (OEmpty, true) None None) "}" /\
+  clause_top rv0 (crender rv0 ex_var +++ (nl +++ "}")) =
+    POk (mkPC false (AccessQuery [QKey "size"] true) (OLe, false) (Some (RQuery (AccessQuery [QKey "%limit"; QAllIndices None; QKey "max"] true))) None) "}".
+Proof. exact ex_clauses_parse. Qed.
+Print Assumptions C14_clause_spelling_instance.
